@@ -39,17 +39,11 @@ func (r *Reader) createPRVWBox(b *box) (inner box, err error) {
 		return inner, errors.Wrap(ErrBufLength, "readPRVWBoxDiscard")
 	}
 
-	buf, err := b.Peek(8)
-	if err != nil {
+	// the PRVW box is an ordinary child box: 32- or 64-bit size form
+	inner, ok, err := b.readInnerBox()
+	if err != nil || !ok {
 		return inner, errors.Wrap(ErrBufLength, "readPRVWBoxPeek")
 	}
-
-	inner.reader = b.reader
-	inner.outer = b
-	inner.offset = int(b.size) - b.remain + b.offset
-	inner.size = int64(bmffEndian.Uint32(buf[:4]))
-	inner.remain = int(inner.size)
-	inner.boxType = boxTypeFromBuf(buf[4:8])
 
 	return inner, nil
 }
@@ -59,16 +53,17 @@ func parsePreviewBox(b *box) (prvw PRVWBox, err error) {
 		return prvw, ErrWrongBoxType
 	}
 
-	buf, err := b.Peek(24)
+	// the box header has been consumed; 16 bytes of preview header precede the image
+	buf, err := b.Peek(16)
 	if err != nil {
 		return prvw, errors.Wrap(ErrBufLength, "parsePreviewBoxPeek")
 	}
 
-	prvw.Width = bmffEndian.Uint16(buf[14:16])
-	prvw.Height = bmffEndian.Uint16(buf[16:18])
-	prvw.Size = bmffEndian.Uint32(buf[20:24])
+	prvw.Width = bmffEndian.Uint16(buf[6:8])
+	prvw.Height = bmffEndian.Uint16(buf[8:10])
+	prvw.Size = bmffEndian.Uint32(buf[12:16])
 
-	_, err = b.Discard(24)
+	_, err = b.Discard(16)
 	if err != nil {
 		return prvw, errors.Wrap(ErrBufLength, "parsePreviewBoxDiscard")
 	}
